@@ -1,49 +1,70 @@
 package sysloginput
 
-// C19 — a record dropped by an extraction transform inside the composite parser.
+// C19 / C09 — a record dropped by an extraction transform inside the composite parser.
 
 import (
 	"time"
 
 	"github.com/relex/gotils/logger"
 	"github.com/relex/slog-agent/base"
-	"github.com/relex/slog-agent/input/syslogparser"
+	"github.com/relex/slog-agent/base/bconfig"
+	"github.com/relex/slog-agent/base/bmatch"
 	"github.com/relex/slog-agent/input/syslogprotocol"
+	"github.com/relex/slog-agent/transform/tdrop"
 	"github.com/relex/slog-agent/zz_verif/fakes"
 	"github.com/relex/slog-agent/zz_verif/sym"
 )
 
-// VerifC19_ExtractionDropCounted: input passed + dropped = messages received,
-// and every message counted as passed is handed to the pipelines (so that
-// pipeline passed + dropped = input passed can hold).
-//
-//verif:reach passed dropped-by-extraction
-func VerifC19_ExtractionDropCounted() {
+// verifExtractionDrop drives the parser of the syslog input as its exported
+// constructor builds it (Config.NewParser: syslog parser + extraction
+// transforms), with one extraction step that drops records whose app name
+// starts with 'X'; the first byte of the app name is symbolic.
+func verifExtractionDrop(attribution bool) {
 	schema := syslogprotocol.RFC5424Schema
 	m := fakes.NewMetrics()
 	cnt := base.NewLogInputCounter(m)
 	alloc := base.NewLogAllocator(schema, 1)
-	p, err := syslogparser.NewParser(logger.Root(), alloc, schema, nil, cnt)
-	sym.Assume(err == nil)
-	dropApp := sym.Byte("droppedApp")
-	cp := newCompositeParser(p, []base.LogTransformFunc{func(r *base.LogRecord) base.FilterResult {
-		if len(r.Fields[4]) > 0 && r.Fields[4][0] == dropApp {
-			return base.DROP
-		}
-		return base.PASS
-	}}, alloc)
+	cfg := &Config{
+		LevelMapping: []string{"off", "fatal", "crit", "error", "warn", "notice", "info", "debug"},
+		Extractions: []bconfig.LogTransformConfigHolder{
+			{Value: &tdrop.Config{Match: bmatch.VerifMatch("app", "!!str-start", "X"), Percentage: 100, MetricLabel: "xdrop"}},
+		},
+	}
+	cp, err := cfg.NewParser(logger.Root(), alloc, schema, cnt)
+	sym.Assert(err == nil, "parser with one extraction step is created")
 	line := []byte("<13>1 2019-08-15T15:50:46Z host Xapp 11 src - message")
 	line[32] = sym.Byte("appFirst")
 	sym.Assume(line[32] != ' ')
 	rec := cp.Parse(line, time.Unix(1600000000, 0))
 	cnt.UpdateMetrics()
 	passed, dropped := m.CounterValue("passed_records_total"), m.CounterValue("dropped_records_total")
+	bytes := m.CounterValue("passed_record_bytes_total") + m.CounterValue("dropped_record_bytes_total")
 	sym.Assert(passed+dropped == 1, "the message is counted exactly once")
+	sym.Assert(int(bytes) == len(line), "the message is counted with its byte length, once")
 	if rec != nil {
+		sym.Assert(line[32] != 'X', "a record matching the extraction drop is not handed on")
 		sym.Assert(passed == 1, "a record handed on is counted as passed")
 		sym.Reach("passed")
 	} else {
+		sym.Assert(line[32] == 'X', "only a record matching the extraction drop is withheld")
 		sym.Reach("dropped-by-extraction")
-		sym.Assert(passed == 0 && dropped == 1, "a record dropped by an extraction step is counted as dropped, not as passed [extraction drop]")
+		if attribution {
+			sym.Assert(passed == 0 && dropped == 1, "a record dropped by an extraction step is counted as dropped, not as passed [extraction drop]")
+		}
 	}
 }
+
+// VerifC19_ExtractionDropCounted: input passed + dropped = messages received,
+// and every message counted as passed is handed to the pipelines (so that
+// pipeline passed + dropped = input passed can hold).
+//
+//verif:reach passed dropped-by-extraction
+func VerifC19_ExtractionDropCounted() { verifExtractionDrop(true) }
+
+// VerifC09_ExtractionDropCountedOnce: every message handed to the input's
+// parser - the syslog parser followed by the extraction steps - is counted
+// exactly once with its byte length, also when an extraction step drops it
+// after the syslog parser has counted it.
+//
+//verif:reach passed dropped-by-extraction
+func VerifC09_ExtractionDropCountedOnce() { verifExtractionDrop(false) }
